@@ -425,6 +425,26 @@ fn oneshot_decode(ch: &mut Chooser, ctx: &mut Ctx, op_no: usize) {
         }
     }
 
+    // silent damage (F6 passed on unverified): one or all of the given shards carry arbitrary bytes of the right
+    // length. What is restored then is unspecified, but the one-shot call and the streaming decoder are given the
+    // same shards and must still agree byte for byte (no shortcut may assume that the shards are mutually consistent).
+    let mut garbled = false;
+    if ch.chance("os.dec.garble", 1, 5) {
+        let all = ch.chance("os.dec.garble.all", 1, 3);
+        let mut p = simcore::prng::Prng::new(ch.seed64("os.dec.garble.seed"));
+        let total = orig.len() + rec.len();
+        let pick = if total > 0 { p.below(total as u64) as usize } else { 0 };
+        for (n, (_, s)) in orig.iter_mut().chain(rec.iter_mut()).enumerate() {
+            if all || n == pick {
+                p.fill(s);
+                garbled = true;
+            }
+        }
+        if garbled {
+            ctx.count("fault.F20.inconsistent_payloads");
+        }
+    }
+
     let o_meta: Vec<(usize, usize)> = orig.iter().map(|(i, s)| (*i, s.len())).collect();
     let r_meta: Vec<(usize, usize)> = rec.iter().map(|(i, s)| (*i, s.len())).collect();
     let adm = decode_adm(k, r, &o_meta, &r_meta);
@@ -540,7 +560,7 @@ fn oneshot_decode(ch: &mut Chooser, ctx: &mut Ctx, op_no: usize) {
         ctx.viol(&["C06"], "verdict", "verdict/oneshot-decode/r2".into(), format!("decode({k}, {r}, originals {o_meta:?}, recovery {r_meta:?}) -> {:?}; R2 admissible errors: {adm:?}", got.as_ref().map(BTreeMap::len)), false);
     }
     // data: what was restored must be the original bytes (only when the stripe matches the counts)
-    if let (Ok(g), true) = (&got, (sk, sr) == (k, r) && n_faults == 0) {
+    if let (Ok(g), true) = (&got, (sk, sr) == (k, r) && n_faults == 0 && !garbled) {
         for (i, s) in g {
             if s != &stripe.originals[*i] {
                 ctx.viol(&["C01", "C10"], "restores-original-bytes", "restore/oneshot".into(), format!("decode({k}, {r}, ..): restored original {i} differs from the encoded original"), false);
